@@ -127,6 +127,7 @@ type Enc struct {
 	curLemma    string
 	curCallArgs []ssa.Value
 	assertDone  map[*AssertAt]bool
+	canaries    []*Obl
 	curInstr    ssa.Instruction   // instruction of the verified function being encoded (not of inlined callees)
 	lockHeap    map[string]string // heap right after the first Lock in the function body
 	lockHeaps   []map[string]string
@@ -175,6 +176,16 @@ func (e *Enc) oblige(st *bstate, kind, anchor, goal string, pos token.Pos) *Obl 
 	// later obligations may assume this one
 	e.assume(st.reach, goal)
 	return o
+}
+
+// canary records a program point whose path condition must stay satisfiable together with
+// everything assumed up to it (assumed contracts, invariants, axioms): if "false" can be
+// derived there, every obligation downstream is proved vacuously.
+func (e *Enc) canary(st *bstate, label string) {
+	if e.dry || e.depth > 0 {
+		return
+	}
+	e.canaries = append(e.canaries, &Obl{Name: fnDisplay(e.fn) + "/canary/" + label, Kind: "canary", Fn: fnDisplay(e.fn), At: len(e.items), Reach: st.reach, Goal: "false"})
 }
 
 func fnDisplay(f *ssa.Function) string {
